@@ -99,6 +99,13 @@ class World:
                 return True
         return False
 
+    def numba_error_model(self, fd):
+        for d in fd.decorator_list:
+            s = ast.unparse(d).replace('"', "'")
+            if "error_model='numpy'" in s:
+                return 'numpy'
+        return 'python'
+
     # ---- names
     def convert_global(self, name, v):
         if isinstance(v, types.ModuleType):
